@@ -280,3 +280,60 @@ func TestMapEntriesAreSortedThenPermutedByDecisions(t *testing.T) {
 		t.Fatalf("only %d iteration orders in 40 seeds", len(orders))
 	}
 }
+
+// a late start (Config.SpawnStall) delays only goroutines of the system under test, by simulated time, repeatably, and
+// lets a later event overtake the start of an earlier goroutine
+func TestSpawnStallDelaysTheStartOfSUTGoroutines(t *testing.T) {
+	overtaken, stalls := 0, 0
+	for seed := uint64(1); seed <= 60; seed++ {
+		var order [2][]string
+		var res [2]Result
+		for rep := 0; rep < 2; rep++ {
+			res[rep] = Run(t, Config{Seed: seed, SpawnStall: 50}, func() {
+				done := make(chan struct{}, 3)
+				GoNamed("harness-side", 0, func() { order[rep] = append(order[rep], "h"); Send("d", done, struct{}{}) })
+				GoNamed("sut-parent", 1, func() {
+					Go("child", func() { order[rep] = append(order[rep], "child"); Send("d", done, struct{}{}) })
+					Sleep("later", 10*time.Millisecond)
+					order[rep] = append(order[rep], "later")
+					Send("d", done, struct{}{})
+				})
+				for i := 0; i < 3; i++ {
+					Recv("wait", done)
+				}
+			})
+			if res[rep].HarnessError != "" || res[rep].Stuck {
+				t.Fatalf("seed %d: %s %s", seed, res[rep].HarnessError, res[rep].StuckInfo)
+			}
+		}
+		if !reflect.DeepEqual(order[0], order[1]) || res[0].SpawnStalls != res[1].SpawnStalls {
+			t.Fatalf("seed %d: not repeatable: %v / %v", seed, order[0], order[1])
+		}
+		stalls += res[0].SpawnStalls
+		o := strings.Join(order[0], " ")
+		if strings.Index(o, "later") < strings.Index(o, "child") {
+			overtaken++
+		}
+	}
+	if stalls == 0 || overtaken == 0 {
+		t.Fatalf("stalls=%d, runs in which the 10 ms sleep overtook the child's start=%d", stalls, overtaken)
+	}
+	// without the knob a sleeping goroutine never overtakes the start of a runnable one
+	for seed := uint64(1); seed <= 20; seed++ {
+		var order []string
+		Run(t, Config{Seed: seed}, func() {
+			done := make(chan struct{}, 2)
+			GoNamed("sut-parent", 1, func() {
+				Go("child", func() { order = append(order, "child"); Send("d", done, struct{}{}) })
+				Sleep("later", 10*time.Millisecond)
+				order = append(order, "later")
+				Send("d", done, struct{}{})
+			})
+			Recv("wait", done)
+			Recv("wait", done)
+		})
+		if strings.Join(order, " ") != "child later" {
+			t.Fatalf("seed %d: %v", seed, order)
+		}
+	}
+}
